@@ -115,10 +115,10 @@ func init() {
 			"states": mc.Distinct + amc.Distinct, "transitions": mc.Generated + amc.Generated,
 			"traces_validated_against_impl": st.Convs + ast.Convs + convs + vs.Walks,
 			"closing_edges_replayed":        st.Covered + ast.Covered, "closing_edges": st.Edges + ast.Edges,
-			"conversations_swept":           paths, "cut_points": convs, "goroutine_census_failures": leaks,
+			"conversations_swept": paths, "cut_points": convs, "goroutine_census_failures": leaks,
 			"recorded_walks_validated": vs.Walks, "repo_test_connections_validated": rc, "repo_test_hook_events": rev,
 			"late_start_schedules": nl, "verdict_model_states": mcv.Distinct,
-			"samples":                  samples, "checker_cmd": mc.Cmd,
+			"samples": samples, "checker_cmd": mc.Cmd,
 		}, []string{"every closing step is sent with three more commands pipelined behind it in the same segment",
 			"in the ordinary engines the command loop is held (gate bdat-spawned) until a launched delivery has begun its Data callback; the opposite schedule - the goroutine not scheduled until the transfer or the session has ended - is the late-start family (Verdict.tla), a known finding",
 			"Logout after a concurrent Server.Close is the lifecycle family (C20)"})
